@@ -68,6 +68,31 @@ theorem C02_hour_view_local {D : Type} (ts : D → Int) : (hourView ts).Local :=
   simp only [hourView]
   rw [core_getElem?_of_take h (le_refl k), h]
 
+/-- against Deribit's own frame: the lookup at a bar with time `now` reads only rows stamped `≤ now` — two books that agree on
+    those rows give the same answer -/
+theorem C02_hour_lookup_reads_past_only {R : Type} (b₁ b₂ : List (Int × R)) (now : Int)
+    (h : b₁.filter (fun x => decide (x.1 ≤ now)) = b₂.filter (fun x => decide (x.1 ≤ now))) :
+    hourLookup b₁ now = hourLookup b₂ now := by
+  have key : ∀ b : List (Int × R), hourLookup b now = (b.filter (fun x => decide (x.1 ≤ now))).find? (fun x => x.1 == now - now % 3600) := by
+    intro b
+    unfold hourLookup
+    induction b with
+    | nil => rfl
+    | cons x b ih =>
+      by_cases hx : x.1 = now - now % 3600
+      · have hle : x.1 ≤ now := by have := Int.emod_nonneg now (by norm_num : (3600 : Int) ≠ 0); omega
+        have hb : (x.1 == now - now % 3600) = true := by simpa using hx
+        simp only [List.filter_cons, hle, decide_true, if_true, List.find?_cons, hb]
+      · by_cases hle : x.1 ≤ now
+        · simp only [List.filter_cons, hle, decide_true, if_true, List.find?_cons]
+          have : (x.1 == now - now % 3600) = false := by simpa using hx
+          rw [this]; exact ih
+        · simp only [List.filter_cons, hle, decide_false, List.find?_cons]
+          have : (x.1 == now - now % 3600) = false := by simpa using hx
+          simp only [this]
+          exact ih
+  rw [key b₁, key b₂, h]
+
 theorem C02_pair_view_local {D V W : Type} (v : ViewFn D V) (w : ViewFn D W) (hv : v.Local) (hw : w.Local) :
     (pairView v w).Local := by
   intro h₁ h₂ k h
